@@ -752,7 +752,7 @@ fn bit_reverse(b: u8) -> u8 {
 }
 
 pub fn run_c23(ctx: &Ctx, rep: &mut Report) {
-    let n = if ctx.is_miri() { ctx.cases(4, 160) } else { ctx.cases(24_000, 800_000) };
+    let n = if ctx.is_miri() { ctx.cases(4, 160) } else { ctx.cases(24_000, 250_000) };
     let origins = [RName::simple("example.test."), RName::simple("sub.example.test."), RName::root(), RName::simple("Other.Example.")];
     for case in ctx.case_range(n) {
         rep.current_case = case;
@@ -844,7 +844,7 @@ const SOUP: [&str; 40] = [
 ];
 
 pub fn run_c24(ctx: &Ctx, rep: &mut Report) {
-    let n = if ctx.is_miri() { ctx.cases(4, 160) } else { ctx.cases(60_000, 2_000_000) };
+    let n = if ctx.is_miri() { ctx.cases(4, 160) } else { ctx.cases(60_000, 600_000) };
     let origins = [RName::simple("example.test."), RName::root()];
     for case in ctx.case_range(n) {
         rep.current_case = case;
